@@ -3,7 +3,7 @@
 usage: seedeval.py <ID> <N> [--keep]      (N = 1 | 2)'''
 import json, os, shutil, subprocess, sys, re
 PY = '/venv/bin/python'
-PROPS = ['C01','C02','C03','C04','C05','C06','C07','C08','C09','C10','C11','C12','C13','C14','C15','C17','C18','C19','C20']
+PROPS = ['C01','C02','C03','C04','C05','C06','C07','C08','C09','C10','C11','C12','C13','C14','C15','C16','C17','C18','C19','C20']
 TABS = ['xtuml/__xtuml_lextab.py','xtuml/__xtuml_parsetab.py','bridgepoint/__oal_lextab.py','bridgepoint/__oal_parsetab.py']
 
 def sh(cmd, cwd, env=None, timeout=900):
